@@ -19,12 +19,14 @@ from dep_logic.tags.tags import EnvCompatibility, parse_wheel_tags  # noqa: E402
 THEOREMS_BY_PROP = {
     "C08": ["DepLogic.C08.evalPyCore_iff", "DepLogic.C08.compatible_of_exists", "DepLogic.C08.exists_of_compatible",
             "DepLogic.C08.exists_cut_of_compatible", "DepLogic.C08.wheelSpec_reads",
-            "DepLogic.C08.score_shape", "DepLogic.C08.abiGate_iff", "DepLogic.C05.isEmpty_sound", "DepLogic.C01.and_exact",
+            "DepLogic.C08.score_shape", "DepLogic.C08.abiGate_iff", "DepLogic.C08.maxScore_spec",
+            "DepLogic.C08.compatibility_score", "DepLogic.C08.compatibility_none", "DepLogic.C08.compatibility_perm", "DepLogic.C05.isEmpty_sound", "DepLogic.C01.and_exact",
             "DepLogic.C04.leaf_exact"],
     "C09": ["DepLogic.C09.manylinux_tags", "DepLogic.C09.manylinuxLoop_mem", "DepLogic.C09.manylinuxLoop_sorted",
             "DepLogic.C09.musllinux_tags", "DepLogic.C09.macos_arm64_tags", "DepLogic.C09.macos10_x86_64_tags",
             "DepLogic.C09.macos11_x86_64_tags", "DepLogic.C09.windows_tags", "DepLogic.C09.rangeDown_mem",
-            "DepLogic.C09.downFrom_sorted"],
+            "DepLogic.C09.downFrom_sorted", "DepLogic.C08.bestPlat_spec", "DepLogic.C08.compatibility_score",
+            "DepLogic.C08.compatibility_perm"],
     "C16": ["DepLogic.C16.widen_keeps", "DepLogic.C16.widen_keeps_cuts", "DepLogic.C16.widen_or_keeps", "DepLogic.C16.and_isEmpty_comm", "DepLogic.C16.compare_refl",
             "DepLogic.C16.compare_incompatible_symm", "DepLogic.C16.compare_not_higher_both",
             "DepLogic.C16.manylinux_nested", "DepLogic.C16.beq_refl", "DepLogic.C16.beq_symm"],
@@ -194,7 +196,37 @@ def run_c08(run: core.Run, n_rp: int) -> None:
                         exp = f"{py[2]},{int(py[3:]) if len(py) > 3 else 0},{kind}"
                         if out != exp:
                             run.fail(core.Failure(f"score|{rp_text}|{impl_s}|{py}|{abi}", f"score {out}, expected {exp}", rep))
+    # the free-threading flag as the library itself obtains it: sysconfig's Py_GIL_DISABLED is the int 1 on a
+    # free-threaded build (fixed finding D33: the flag was compared by identity, so EnvSpec.current() on python3.13t
+    # rejected its own cp313-cp313t); every way of stating the flag must answer like `True` / `False`
+    n_flag = 0
+    for rp_text in ("==3.13.*", ">=3.8", "<3.13", "==3.14.0"):
+        for py in ("cp313", "cp314", "cp38", "py3", "py313"):
+            for abi in abi_tags_for(py):
+                for flag in (1, 0):
+                    n_flag += 1
+                    if gilflag_differs(rp_text, flag, py, abi):
+                        run.fail(core.Failure(f"gilflag|{rp_text}|{flag}|{py}|{abi}",
+                                              f"requires_python {rp_text!r}: ({py},{abi}) is judged differently when the "
+                                              f"free-threading flag is given as {flag!r} / read from sysconfig than as {bool(flag)!r}",
+                                              {"op": "gilflag", "rp": rp_text, "flag": flag, "py": py, "abi": abi}))
+    run.extra["gil_flag_spellings_checked"] = n_flag
     run.extra["oracle_evaluations"] = n_oracle
+
+
+def gilflag_differs(rp_text: str, flag: int, py: str, abi: str) -> bool:
+    import sysconfig
+    from unittest import mock
+    rp = parse_version_specifier(rp_text)
+    want = EnvSpec(rp, None, Implementation.parse("cpython", bool(flag)))._evaluate_python(py, abi)
+    orig = sysconfig.get_config_var
+    with mock.patch.object(sysconfig, "get_config_var", lambda k: flag if k == "Py_GIL_DISABLED" else orig(k)), \
+            mock.patch("dep_logic.tags.tags.python_implementation", lambda: "CPython"):
+        cur = Implementation.current()
+    outs = [EnvSpec(rp, None, Implementation.parse("cpython", flag))._evaluate_python(py, abi),
+            EnvSpec(rp, None, cur)._evaluate_python(py, abi),
+            EnvSpec.from_spec(rp_text, None, "cpython", gil_disabled=flag)._evaluate_python(py, abi)]
+    return any(o != want for o in outs)
 
 
 # ----------------------------------------------------------------------------- C09
@@ -338,6 +370,14 @@ def run_c09(run: core.Run) -> None:
         wheel = "cp39.py3\tcp39.none\t" + ".".join(tags[::3] + ["zzz"])
         out = enc_out(lambda: env.compatibility(["cp39", "py3"], ["cp39", "none"], tags[::3] + ["zzz"]))
         run.add(core.Case("compat", f"e.compat\t{enc_spec(env.requires_python)}\t{name}\t-\t{wheel}", out))
+        # the same wheel with its tags listed oldest-first (C08.compatibility_perm: the verdict is the BEST tag's,
+        # whatever the order; seed C09g returned the first accepted tag's score)
+        rev = (tags[::3] + ["zzz"])[::-1]
+        out_rev = enc_out(lambda: env.compatibility(["py3", "cp39"], ["none", "cp39"], rev))
+        run.add(core.Case("compat", f"e.compat\t{enc_spec(env.requires_python)}\t{name}\t-\tpy3.cp39\tnone.cp39\t" + ".".join(rev), out_rev))
+        if out_rev != out:
+            run.fail(core.Failure(f"score2|{name}|order", f"compatibility() of the same wheel with its tags listed in reverse is {out_rev}, was {out}",
+                                  {"op": "pscore2", "platform": name, "tag": "wheel"}))
         # scoring is a function of the tag alone: the same answers again AFTER rejected tags, in any order, on the same
         # EnvSpec / Platform objects; the platform's tag list is untouched (seed C09e: a rejected tag left a stray "any"
         # on the cached list)
@@ -474,7 +514,35 @@ def run_c16(run: core.Run, n_specs: int, n_wheels: int) -> None:
             if not set(ta) <= set(tb) or lost:
                 run.fail(core.Failure(f"newer|{x[2]}|{y[2]}", f"{y[2]} does not accept every tag of {x[2]} (e.g. {lost[:2]})",
                                       {"op": "newer", "a": x[2], "b": y[2]}))
-    run.extra["oracle_evaluations"] = n_oracle
+    # compare() against tag nesting, deterministically: ALL ordered pairs of releases inside each family / architecture
+    # (seed C16g ordered releases by major*10+minor: only macOS 10.1x against 11.y shows it) and all pairs of the
+    # platforms whose releases cannot be ordered (fixed finding D34: LOWER_OR_EQUAL both ways with disjoint tag sets)
+    n_pairs = 0
+    any_rp = parse_version_specifier("")
+    groups = list(fam.values()) + [[(0, 0, nm) for nm in COMPARE_OTHERS]]
+    for lst in groups:
+        if run.tier == "quick" and len(lst) > 24:
+            lst = [x for i, x in enumerate(sorted(lst)) if i % 3 == 0 or x[1] in (0, 9, 10, 11, 16, 17)]
+        objs = [(nm, EnvSpec(any_rp, Platform.parse(nm))) for _, _, nm in sorted(lst)]
+        tagsets = {nm: set(e.platform.compatible_tags) for nm, e in objs}
+        for (na, a), (nb, b) in itertools.product(objs, objs):
+            out = a.compare(b).name
+            n_pairs += 1
+            run.add(core.Case("compare-family", f"e.compare\t{enc_spec(any_rp)}\t{na}\t-\t{enc_spec(any_rp)}\t{nb}\t-", out))
+            nested = tagsets[na] <= tagsets[nb] if out == "LOWER_OR_EQUAL" else tagsets[nb] <= tagsets[na]
+            if out != "INCOMPATIBLE" and not nested:
+                run.fail(core.Failure(f"cmp-nest|{na}|{nb}", f"{na}.compare({nb}) says {out} but the platform tag sets are not nested",
+                                      {"op": "compare", "a": ["", na, "-"], "b": ["", nb, "-"]}))
+            if out == "HIGHER" and b.compare(a).name == "HIGHER":
+                run.fail(core.Failure(f"cmp-hh|{na}|{nb}", "HIGHER in both directions", {"op": "compare", "a": ["", na, "-"], "b": ["", nb, "-"]}))
+    run.extra["family_pairs_compared"] = n_pairs
+    run.extra["oracle_evaluations"] = n_oracle + n_pairs
+
+
+COMPARE_OTHERS = ["freebsd_13_x86_64", "freebsd_14_x86_64", "freebsd_13_aarch64", "netbsd_9_aarch64", "netbsd_10_aarch64", "openbsd_7_x86_64",
+                  "openbsd_6_x86_64", "dragonfly_6_x86_64", "haiku_1_x86_64", "haiku_2_x86_64", "cygwin_x86_64", "android_x86_64",
+                  "android_aarch64", "windows_amd64", "windows_arm64", "windows_x86", "manylinux_2_17_x86_64", "musllinux_1_2_x86_64",
+                  "macos_12_0_x86_64"]
 
 
 def subset_structural(a, b) -> bool:
@@ -591,7 +659,26 @@ def run_c18(run: core.Run, n: int) -> None:
             out = "raise:" + type(e).__name__
         if bad.split("_")[0] in ("manylinux", "macos", "musllinux", "windows") and "ok" not in out:
             run.add(core.Case("platform-malformed", f"p.parse\t{bad}", out))
+    # BSD / Haiku / generic names are outside the property's claim (their str() is lossy: `openbsd_7_x86_64` prints as
+    # `openbsd_x86_64`, Lean: C18.openbsd_no_roundtrip) but inside the model since fix cf8cce3 made compare() depend on
+    # them: correspondence of parse, str and compatible_tags only
+    for nm in OTHER_PLATFORMS:
+        try:
+            p = Platform.parse(nm)
+            out = "ok\t" + str(p)
+        except Exception as e:  # noqa: BLE001
+            out, p = "raise:" + type(e).__name__, None
+        run.add(core.Case("platform-other", f"p.parse\t{nm}", out))
+        if p is not None:
+            run.add(core.Case("platform-other-tags", f"p.tags\t{nm}", enc_out(lambda: p.compatible_tags)))
     run.extra["oracle_evaluations"] = n_oracle
+
+
+OTHER_PLATFORMS = ["freebsd_13_x86_64", "freebsd_14_x86_64", "freebsd_13.2-RELEASE_amd64", "freebsd_13_2_x86_64", "netbsd_9_aarch64",
+                   "netbsd_10_aarch64", "openbsd_7_x86_64", "openbsd_7.4_amd64", "dragonfly_6_x86_64", "haiku_1_x86_64",
+                   "haiku_2_x86_64", "illumos_5_11_x86_64", "cygwin_x86_64", "android_x86_64", "android_arm64", "Linux_x86_64",
+                   "linux_x86_64", "linux_i686", "foo", "win32", "cygwin_mips", "freebsd_13_mips", "freebsd_x86_64", "freebsd_",
+                   "_x86_64", "manylinux_2_x86_64", "macos_11_x86_64", "solaris_2_11_x86_64", "aix_7_ppc64"]
 
 
 def run_prop(prop: str, run: core.Run) -> None:
@@ -622,6 +709,8 @@ def replay(data: dict) -> bool:
         admitted = [v for v in CANDIDATES if smem(rp, v)]
         got = env._evaluate_python(r["py"], r["abi"]) is not None
         return got != any(loads(r["impl"], r["py"], r["abi"], v) for v in admitted)
+    if r["op"] == "gilflag":
+        return gilflag_differs(r["rp"], r["flag"], r["py"], r["abi"])
     if r["op"] == "tags":
         name = r["platform"]
         try:
@@ -638,6 +727,11 @@ def replay(data: dict) -> bool:
         for junk in ("nonsense_tag", "linux_ppc64", "win_ia64"):
             env._evaluate_platform(junk)
         again = [env._evaluate_platform(t) for t in tags]
+        w = tags[::3] + ["zzz"]
+        c0 = env.compatibility(["cp39", "py3"], ["cp39", "none"], w)
+        if c0 != env.compatibility(["cp39", "py3"], ["cp39", "none"], ["zzz", "linux_ppc64"] + tags[::3]) or \
+                c0 != env.compatibility(["py3", "cp39"], ["none", "cp39"], w[::-1]):
+            return True
         return first != again or first != [len(tags) - i for i in range(len(tags))] or \
             list(Platform.parse(name).compatible_tags) + ["any"] != tags
     if r["op"] == "wheel":
@@ -663,6 +757,10 @@ def replay(data: dict) -> bool:
     if r["op"] == "compare":
         a, b = mk_env(tuple(r["a"])), mk_env(tuple(r["b"]))
         o, k = a.compare(b).name, b.compare(a).name
+        if a.platform is not None and b.platform is not None and o != "INCOMPATIBLE":
+            ta, tb = set(a.platform.compatible_tags), set(b.platform.compatible_tags)
+            if not (ta <= tb if o == "LOWER_OR_EQUAL" else tb <= ta):
+                return True
         return (o == "INCOMPATIBLE") != (k == "INCOMPATIBLE") or (o == k == "HIGHER") or (r["a"] == r["b"] and o != "LOWER_OR_EQUAL")
     if r["op"] == "widen":
         a, b = mk_env(tuple(r["a"])), mk_env(tuple(r["b"]))
